@@ -17,7 +17,9 @@ def draw_config(ch, max_events=60, allow_zero=True):
     sim.mode = d["mode"]
     # thrown events: small batches, including 0, 1, 2, 3
     nsel = ch.draw(6, "events_class")
-    if nsel == 0:
+    if nsel == 5 and max_events >= 60 and ch.draw(5, "events_big") == 4:
+        n = 110 + ch.draw(160, "events_many")  # more than one dask partition of in-range showers
+    elif nsel == 0:
         n = 12
     elif nsel == 1:
         n = 1 + ch.draw(4, "events_tiny")
